@@ -425,6 +425,15 @@ fn perm_sources(args: &[String]) {
                                      "mods": [{"name": "perm.pn", "src": src}]})).unwrap();
         }
     }
+    // the container graphs of C11 (constants and structures that contain each other, cyclic ones included, in a random
+    // declaration order): twice as many as programs
+    for i in 0..2 * count {
+        let mut rng = Rng::new(seed, 0xC11A_0000 + i as u64);
+        let g = graphs::random(&mut rng, 6);
+        writeln!(f, "{}", json!({"id": format!("xgraph{i}"), "kind": "xgraph", "wasm": false,
+                                 "origin": format!("container graph {seed}/{i}"),
+                                 "mods": [{"name": "graph.pn", "src": g.render()}]})).unwrap();
+    }
 }
 
 fn spawn_self(args: &[String]) -> Result<String, String> {
